@@ -62,7 +62,7 @@ var explainRound5 = map[string]string{
 	"C06": " Round 5: (G) configuration-time code — every New… and With… function, its closures and static callees — writes no memory rooted at a package-level variable (reviewed exceptions: the node-kind and context-key registries).",
 	"C08": " Round 5: (R) render functions never slice the source between positions of two different segments (= C10).",
 	"C10": " Round 5: (A) every constructor taking functional options applies them to the object it returns (in place through a pointer into it, or through a copy that is stored back); (R) render functions read node text segment by segment — the source between two segments holds container markers, so Unsafe output would differ from safe output by more than the placeholder.",
-	"C11": " Round 5: (X) the Extend methods of the extensions hand only registration options (With…Parsers, With…Transformers, WithNodeRenderers) to the instance; instance-wide options passed along change documents that do not use the extension (CJK is the reviewed exception); (Y) the typographer returns a node only when the byte under the cursor is one of ' \" - . < > (per-edge data-flow of 256-bit byte sets over Parse).",
+	"C11": " Round 5: (X) the Extend methods of the extensions hand only registration options (With…Parsers, With…Transformers, WithNodeRenderers) to the instance; instance-wide options passed along change documents that do not use the extension (CJK is the reviewed exception); (Y) the typographer returns a node only when the byte under the cursor is one of ' \" - . < > (per-edge data-flow of 256-bit byte sets over Parse); (F) the footnote parsers return a node only behind a test of a byte of the peeked line against '^'.",
 	"C13": " Round 5: (R) a method that unlinks one child stores firstChild on every path on which the child had no previous sibling and lastChild on every path on which it had no next sibling; (G) a mutator takes a node out of whatever parent it has only if it adopts that node — reference nodes are detached only through RemoveChild(self, v).",
 	"C15": " Round 5: (A) = C10-A: options given to NewATXHeadingParser / NewSetextHeadingParser reach the parser that is returned (an auto-id option applied to a dropped copy yields headings without ids).",
 	"C16": " Round 5: (B) also: the table of running per-footnote ordinals is allocated once per Transform — not in a loop and not in a helper called twice — so ordinals do not restart.",
